@@ -13,6 +13,7 @@ import re
 import shutil
 import signal
 import subprocess
+import threading
 import time
 
 REPO = os.environ.get("VERIF_REPO", "/repo")
@@ -35,19 +36,35 @@ def _xdev():
 XDEV = _xdev()
 
 
+_LOCK = threading.Lock()
+
+
 def build():
-    """release binary of the current tree; built once per process, scratch removed at exit"""
-    if _BUILD:
+    """release build (library + binary) of the current tree; built once per process, scratch removed at exit"""
+    with _LOCK:
+        if _BUILD:
+            return _BUILD
+        scratch = "/var/tmp/verif-e2e-%d" % os.getpid()
+        shutil.rmtree(scratch, ignore_errors=True)
+        os.makedirs(scratch)
+        atexit.register(shutil.rmtree, scratch, True)
+        subprocess.run(["rsync", "-a", "--exclude", "target", "--exclude", ".git", REPO + "/", scratch + "/repo/"], check=True)
+        env = dict(os.environ, CARGO_TARGET_DIR=scratch + "/target", CARGO_NET_OFFLINE="true")
+        t0 = time.time()
+        b = subprocess.run(["cargo", "build", "--release", "--offline"], cwd=scratch + "/repo", env=env, capture_output=True, text=True)
+        _BUILD.update({"scratch": scratch, "ok": b.returncode == 0, "err": b.stderr[-400:], "bin": scratch + "/target/release/breadlog", "target": scratch + "/target",
+                       "build_s": round(time.time() - t0, 1)})
         return _BUILD
-    scratch = "/var/tmp/verif-e2e-%d" % os.getpid()
-    shutil.rmtree(scratch, ignore_errors=True)
-    os.makedirs(scratch)
-    atexit.register(shutil.rmtree, scratch, True)
-    subprocess.run(["rsync", "-a", "--exclude", "target", "--exclude", ".git", REPO + "/", scratch + "/repo/"], check=True)
-    env = dict(os.environ, CARGO_TARGET_DIR=scratch + "/target", CARGO_NET_OFFLINE="true")
-    b = subprocess.run(["cargo", "build", "--release", "--offline", "--bin", "breadlog"], cwd=scratch + "/repo", env=env, capture_output=True, text=True)
-    _BUILD.update({"scratch": scratch, "ok": b.returncode == 0, "err": b.stderr[-400:], "bin": scratch + "/target/release/breadlog"})
-    return _BUILD
+
+
+def report_formats():
+    """which of the report lines the oracles parse are still produced by the current source (a reworded message disables the clause that reads it, instead of failing it)"""
+    try:
+        src = open(REPO + "/src/codegen/generate.rs").read()
+    except OSError:
+        src = ""
+    return {"missing": "Missing reference in file {}, line {}, column {}" in src, "total": "Total missing references (all files): {}" in src,
+            "inserted": "Num. inserted reference(s): {}" in src}
 
 
 # ------------------------------------------------------------------------------------------------------------------------------
@@ -380,13 +397,14 @@ def execute(sp, binp, root, idx):
     if not ok:
         return ob
     reported = [(os.path.basename(a), int(b), int(c)) for a, b, c in MISSING_RE.findall(out1)]
+    fmt = report_formats()
     if inscope:
         if (rc1 != 0) != (M > 0):
             ob.bad("C05,C17" if tree.bad else "C05", "--check exits %s with %d statement(s) lacking a reference" % (rc1, M))
-        if len(reported) != M:
+        if fmt["missing"] and len(reported) != M:
             ob.bad("C05", "--check reports %d missing reference(s), the tree has %d" % (len(reported), M))
         tm = TOTAL_RE.search(out1)
-        if tm and int(tm.group(1)) != M:
+        if fmt["total"] and tm and int(tm.group(1)) != M:
             ob.bad("C05", "--check prints a total of %s, the tree has %d" % (tm.group(1), M))
     # ---- edit ----
     start = lock if (cache_on and isinstance(lock, int)) else (mx + 1 if existing else 1)
@@ -515,13 +533,13 @@ def execute(sp, binp, root, idx):
         ob.bad("C01", "no lock in use, but new ID %d is not greater than the largest existing ID %d" % (min(new_ids), mx))
     # C05: locations and counts
     im = INSERTED_RE.search(out2)
-    if im and int(im.group(1)) != inserted_total:
+    if fmt["inserted"] and im and int(im.group(1)) != inserted_total:
         ob.bad("C05", "the edit run prints %s inserted reference(s) but inserted %d token(s)" % (im.group(1), inserted_total))
     if rc2 == 0 and inscope:
         if inserted_total != M:
             ob.bad("C05", "the edit run inserted %d token(s), the tree had %d statement(s) lacking a reference" % (inserted_total, M))
         exp = sorted((b, ) + line_col(orig[rel], off) for b, off, rel in locs)
-        if sorted(reported) != exp and len(reported) == len(exp):
+        if fmt["missing"] and sorted(reported) != exp and len(reported) == len(exp):
             ob.bad("C05", "--check reported locations %s, the edit run inserted at %s" % (sorted(reported)[:4], exp[:4]))
     # lock
     lk = snap2.get(LOCK)
@@ -581,7 +599,7 @@ def run_family(pid, tier, seed, n_quick=60, n_thorough=400, only=None):
                     continue
                 found[key] = {"label": "%s.e2e" % pid, "obligation_id": "%s.e2e @ release binary (bounded scenarios): %s" % (pid, key), "msg": what,
                               "src": None, "sline": None, "site_text": what,
-                              "extra": {"failing_input": ob.desc, "what": what, "detail": kw, "family": pid, "seed": seed, "tier": tier, "index": i}}
+                              "extra": {"failing_input": ob.desc, "what": what, "detail": kw, "family": "scenarios", "pid": pid, "seed": seed, "tier": tier, "index": i}}
             shutil.rmtree("%s/s%04d" % (root, i), ignore_errors=True)
             shutil.rmtree("%s/s%04d_tmp" % (root, i), ignore_errors=True)
             shutil.rmtree("%s/s%04d_cwd" % (root, i), ignore_errors=True)
@@ -662,7 +680,7 @@ def run_errors(pid, tier, seed):
                         res["violations"].append({"label": "%s.e2e" % pid, "obligation_id": "%s.e2e @ release binary (error scenarios): %s" % (pid, key),
                                                   "msg": "%s (%s, %s)" % (what, desc, "--check" if check else "edit"), "src": None, "sline": None, "site_text": desc,
                                                   "extra": {"failing_input": {"files": files, "config_argument": cfgrel, "lock": lock, "mode": "--check" if check else "edit"},
-                                                            "what": what, "family": pid, "seed": seed, "tier": tier, "index": -1}})
+                                                            "what": what, "family": "errors", "pid": pid, "seed": seed, "tier": tier, "index": -1}})
     finally:
         shutil.rmtree(root, ignore_errors=True)
     seen = set()
